@@ -59,6 +59,79 @@ fn expected(sc: &Scenario, bps: &[&str]) -> Vec<DebuggerEvent> {
     ev
 }
 
+/// Breakpoint edits made by the controller while the parser is stopped at its first breakpoint.
+#[derive(Clone, Copy, Debug)]
+enum Edit {
+    DeleteAll,
+    Delete(&'static str),
+    Add(&'static str),
+    AddAll,
+}
+
+fn edits_of(script_name: &str) -> Vec<Edit> {
+    match script_name {
+        "S2" => vec![Edit::Delete("a"), Edit::Add("a"), Edit::Add("zzz")],
+        "S2-delete-all" => vec![Edit::DeleteAll],
+        "S2-delete-all-add" => vec![Edit::DeleteAll, Edit::Add("a")],
+        "S2-delete" => vec![Edit::Delete("a")],
+        "S2-add-all" => vec![Edit::AddAll],
+        "S2-swap" => vec![Edit::Delete("a"), Edit::Add("r")],
+        _ => vec![],
+    }
+}
+
+/// The sequential truth when the breakpoint set is edited after the first delivered event:
+/// an entry of the listener trace is delivered iff its rule is in the set *at that moment*.
+fn expected_with_edits(sc: &Scenario, edits: &[Edit]) -> Vec<DebuggerEvent> {
+    let (_, ast) = pest_meta::parse_and_optimize(sc.grammar).expect("scenario grammar");
+    let all_rules: Vec<String> = ast.iter().map(|r| r.name.clone()).collect();
+    let trace = std::sync::Arc::new(std::sync::Mutex::new(vec![]));
+    let t2 = trace.clone();
+    let vm = pest_vm::Vm::new_with_listener(
+        ast.clone(),
+        Box::new(move |rule, pos| {
+            t2.lock().unwrap().push((rule, pos.pos()));
+            false
+        }),
+    );
+    let _ = vm.parse(sc.rule, sc.input);
+    let mut set: Vec<String> = sc.breakpoints.iter().map(|s| s.to_string()).collect();
+    let mut ev = vec![];
+    let mut edited = false;
+    for (r, p) in trace.lock().unwrap().iter() {
+        if set.contains(r) {
+            ev.push(DebuggerEvent::Breakpoint(r.clone(), *p));
+            if !edited {
+                edited = true;
+                for e in edits {
+                    match e {
+                        Edit::DeleteAll => set.clear(),
+                        Edit::Delete(x) => set.retain(|y| y != x),
+                        Edit::Add(x) => {
+                            if !set.contains(&x.to_string()) {
+                                set.push(x.to_string())
+                            }
+                        }
+                        Edit::AddAll => {
+                            for x in &all_rules {
+                                if !set.contains(x) {
+                                    set.push(x.clone())
+                                }
+                            }
+                        }
+                    }
+                }
+            }
+        }
+    }
+    let plain = pest_vm::Vm::new(ast);
+    match plain.parse(sc.rule, sc.input) {
+        Ok(_) => ev.push(DebuggerEvent::Eof),
+        Err(e) => ev.push(DebuggerEvent::Error(e.to_string())),
+    }
+    ev
+}
+
 fn context(sc: &Scenario) -> DebuggerContext {
     let mut c = DebuggerContext::default();
     c.load_grammar_direct("scenario", sc.grammar).expect("grammar");
@@ -118,15 +191,22 @@ fn script(name: &str, sc: &Scenario, cap: usize) {
             drive(&mut ctx, &rx, &want, |_| {});
             // after the end: cont must say EofReached once the parser has finished
         }
-        // S2: breakpoints are edited while the parser is stopped at the first one
-        "S2" => {
+        // S2*: breakpoints are edited while the parser is stopped at the first one; the hits that
+        // follow are those of the edited set
+        n if n.starts_with("S2") => {
+            let edits = edits_of(n);
+            let want = expected_edits_cached(sc, &edits);
             let (tx, rx) = sync_channel(cap);
             ctx.run(sc.rule, tx).expect("run");
-            // deleting and re-adding the same breakpoint while stopped must not change the hits
             drive(&mut ctx, &rx, &want, |c| {
-                c.delete_breakpoint("a");
-                c.add_breakpoint("a".to_string());
-                c.add_breakpoint("zzz".to_string());
+                for e in &edits {
+                    match e {
+                        Edit::DeleteAll => c.delete_all_breakpoints(),
+                        Edit::Delete(x) => c.delete_breakpoint(x),
+                        Edit::Add(x) => c.add_breakpoint(x.to_string()),
+                        Edit::AddAll => c.add_all_rules_breakpoints().expect("grammar loaded"),
+                    }
+                }
             });
         }
         // S3: receive the first event, then re-run; the second run is driven to its end
@@ -196,6 +276,19 @@ fn expected_cached(sc: &Scenario, bps: &[&str]) -> Vec<DebuggerEvent> {
     let mut g = EXPECTED.lock().unwrap();
     if g.is_none() {
         *g = Some(expected(sc, bps));
+    }
+    g.as_ref().unwrap().iter().map(|e| match e {
+        DebuggerEvent::Breakpoint(r, p) => DebuggerEvent::Breakpoint(r.clone(), *p),
+        DebuggerEvent::Eof => DebuggerEvent::Eof,
+        DebuggerEvent::Error(s) => DebuggerEvent::Error(s.clone()),
+    }).collect()
+}
+
+static EXPECTED_EDITS: std::sync::Mutex<Option<Vec<DebuggerEvent>>> = std::sync::Mutex::new(None);
+fn expected_edits_cached(sc: &Scenario, edits: &[Edit]) -> Vec<DebuggerEvent> {
+    let mut g = EXPECTED_EDITS.lock().unwrap();
+    if g.is_none() {
+        *g = Some(expected_with_edits(sc, edits));
     }
     g.as_ref().unwrap().iter().map(|e| match e {
         DebuggerEvent::Breakpoint(r, p) => DebuggerEvent::Breakpoint(r.clone(), *p),
@@ -313,8 +406,8 @@ fn main() {
     // work items
     let mut items: Vec<(&str, &Scenario, usize, Option<usize>)> = vec![];
     for sc in SCENARIOS {
-        for s in ["S1", "S2", "S3", "S4", "S5"] {
-            if (s == "S2" || s == "S3") && sc.breakpoints.is_empty() {
+        for s in ["S1", "S2", "S2-delete-all", "S2-delete-all-add", "S2-delete", "S2-add-all", "S2-swap", "S3", "S4", "S5"] {
+            if (s.starts_with("S2") || s == "S3") && sc.breakpoints.is_empty() {
                 continue;
             }
 
